@@ -63,7 +63,8 @@ Failed(e) ==
          THEN {c \in {"C03.index"} : ~(e.out.tag = "err" /\ e.out.variant = "InvalidQuantile")}
          ELSE {c \in {"C03.index"} : ~(e.out.tag = "ok" /\ e.out.res \in IndexRef(e.qv, e.n))}
     [] e.op = "quant.data" ->
-         LET sorted == IF e.dfmt = "rle" THEN ExpandRle(e.data.rle)
+         LET sorted == IF e.dfmt = "iota" THEN [i \in 1..e.data.iota |-> i - 1]
+                       ELSE IF e.dfmt = "rle" THEN ExpandRle(e.data.rle)
                        ELSE SortSeq(e.data, LAMBDA a, b : a < b)
              o == e.out  r == e.ranks IN
          IF o.tag = "panic" THEN {"C03.no_panic"}
@@ -83,6 +84,7 @@ Clauses(e) ==
          \cup (IF IsFin(e.qv) /\ DySign(FDy(e.qv)) >= 0 /\ Cardinality(Ks(e)) = 2 THEN {"C03.rounding_boundary"} ELSE {})
     [] e.op = "quant.index" -> {"C03.index"}
     [] e.op = "quant.data" -> {"C03.no_panic", "C03.data_outcome", "C03.entry." \o e.entry, "C03.type." \o e.ty}
+                              \cup (IF e.dfmt = "iota" THEN {"C03.distinct_values_shuffled"} ELSE {})
                               \cup (IF e.out.tag = "ok" THEN {"C03.data_elements"} ELSE {})
 
 VARIABLES l, cov, nbad
